@@ -294,7 +294,10 @@ func runScenario(b *vlib.Batch, sc *Scenario) {
 	case "pair", "shared":
 		r := runPlan(w, sc)
 		r.judge(b)
-		if sc.Class == "pair" && len(r.inconcl) == 0 {
+		if sc.Class == "pair" && r.bypassed {
+			b.Count("pair_plans_yield_point_bypassed", 1)
+		}
+		if sc.Class == "pair" && len(r.inconcl) == 0 && !r.bypassed {
 			b.Count("pair_plans_completed", 1)
 			b.Seen("pair_templates", sc.Plan.Template+"/"+sc.Plan.ParkedOp)
 			b.Seen("interleavings", w.parks.signature())
